@@ -864,6 +864,7 @@ package websocket
 //@ note [ghost-owner] defines the ghost relation ghconn for the connection's own bufio.Reader at construction (a definition, assumed); [invariant-established] is proved from it
 //@ ensures [invariant-established] connReady(result)
 //@ ensures [open] !result.closing && !result.closeSent && !result.closeReceived
+//@ ensures [join-state] {C20} result.timeoutLoopDone != nil && result.closeReadCtx == nil && result.closeReadDone == nil
 //@ ensures [unlocked] {C05} !gvcHeld(result.readMu.ch) && !gvcHeld(result.writeFrameMu.ch) && !gvcHeld(result.msgWriter.mu.ch) && !gvcHeld(result.msgWriter.writeMu.ch)
 //@ ensures [reader-init] {C08 C03} result.msgReader.fin && result.msgReader.payloadLength == 0 && result.msgReader.limitReader.n == specArmedLimit(specDefaultReadLimit)
 
